@@ -96,7 +96,7 @@ func TestC19Random(t *testing.T) {
 func TestC19Regress(t *testing.T) { propC19.Regress(t) }
 
 func c19Fail(t *testing.T, c *C19Case, err error) {
-	path := fmt.Sprintf("%s/replays/C19/viol-TestC19Random-enum-%08x-%08x.json", verifDir(), c.Bits, c.N)
+	path := fmt.Sprintf("%s/viol-TestC19Random-enum-%08x-%08x.json", violDir("C19"), c.Bits, c.N)
 	writeReplay(path, "C19", "TestC19Random", c, firstLine(err.Error()))
 	stats.AddViolation(stats.Violation{Property: "C19", Replay: path, Message: firstLine(err.Error())})
 	t.Errorf("%v", err)
